@@ -824,9 +824,12 @@ class AsyncFIXConnection:
             self.log.warning(f"Trying to finalize invalid {msg=}")
             return
 
-        if self._connection_state == ConnectionState.RESENDREQ_AWAITING:
-            assert self._max_seq_num_resend > 0
-
+        if (
+            self._connection_state == ConnectionState.RESENDREQ_AWAITING
+            and self._max_seq_num_resend > 0
+        ):
+            # (_max_seq_num_resend == 0: another task is disconnecting right now,
+            #   the message is already counted and has to be journaled anyway)
             if msg_sec_no >= self._max_seq_num_resend:
                 # All messages were transferred
                 self._max_seq_num_resend = 0
